@@ -194,6 +194,36 @@ Theorem C10_two_live_independent : forall chunk s1 c1 sk1 tm1 lg1 lim1 s2 c2 sk2
 Proof. exact two_live_independent. Qed.
 Print Assumptions C10_two_live_independent.
 
+(* ---- known deviations from the property text (KNOWN_FINDINGS.txt), as witnesses on the faithful model.
+   The positive theorems above hold because the specification machine carries the same behaviour
+   ([sconv]: a partly consumed non-seekable body cannot be captured) resp. because of the hypothesis
+   [consistent] (an input flagged seekable holds exactly CONTENT_LENGTH bytes); these witnesses say what
+   is excluded. *)
+
+(* body_file.read(2) then .body on a COMPLETE non-seekable stream: DisconnectionError *)
+Theorem C10_partial_read_then_body_refuted :
+  outputs 65535 [97%N; 98%N; 99%N; 100%N; 101%N; 102%N; 88%N; 89%N; 90%N] (Some 6%Z) false None false 10240%Z
+          [(0, FileRead (Some 2), []); (0, Body, [])]
+  = [OBytes [97%N; 98%N]; ODisc].
+Proof. vm_compute. reflexivity. Qed.
+Print Assumptions C10_partial_read_then_body_refuted.
+
+(* the same on a terminated input without CONTENT_LENGTH: .body silently returns only the remainder *)
+Theorem C10_partial_read_then_body_terminated_refuted :
+  outputs 65535 [97%N; 98%N; 99%N; 100%N] None false (Some true) false 10240%Z
+          [(0, FileRead (Some 1), []); (0, Body, [])]
+  = [OBytes [97%N]; OBytes [98%N; 99%N; 100%N]].
+Proof. vm_compute. reflexivity. Qed.
+Print Assumptions C10_partial_read_then_body_terminated_refuted.
+
+(* an input flagged seekable that holds more than CONTENT_LENGTH: body_file.read() hands out all of it *)
+Theorem C10_seekable_body_file_unlimited_refuted :
+  outputs 65535 [97%N; 98%N; 99%N; 100%N; 101%N; 102%N; 88%N; 89%N; 90%N] (Some 6%Z) true None false 10240%Z
+          [(0, FileRead None, [])]
+  = [OBytes [97%N; 98%N; 99%N; 100%N; 101%N; 102%N; 88%N; 89%N; 90%N]].
+Proof. vm_compute. reflexivity. Qed.
+Print Assumptions C10_seekable_body_file_unlimited_refuted.
+
 (* the copy exists, shares nothing, and changing it leaves the original's body alone: a concrete run *)
 Example C10_copy_example :
   outputs 65535 [97%N; 98%N; 99%N; 100%N] (Some 3%Z) false None false 1%Z
